@@ -1,9 +1,11 @@
 #!/bin/bash
 # verify_twin.sh <prop> <n>: confirm a sub-agent's twin pair (bad_N.diff breaks the property, ok_N.diff is a
-# behaviour-preserving look-alike) in a scratch worktree; file bad under /verif/seeded/<prop>-<6+n>, ok under /verif/refactors/T-<prop>-<n>.diff
+# behaviour-preserving look-alike) in a scratch worktree; file bad under /verif/seeded/<prop>-<OFFSET+n>, ok under /verif/refactors/T-<prop>-<TOFF+n>.diff
 p=$1; n=$2
-src=/tmp/seed_out/${p}w3
-outn=$(( n + 6 ))
+wave=${WAVE:-w3}; off=${OFFSET:-6}; toff=${TOFF:-0}   # wave 4: WAVE=w4 OFFSET=8 TOFF=2
+src=/tmp/seed_out/${p}${wave}
+outn=$(( n + off ))
+tn=$(( n + toff ))
 wt=/tmp/sv/${p}_t$n
 out=/verif/seeded/${p}-$outn
 [ -f $src/bad_$n.diff ] && [ -f $src/ok_$n.diff ] || { echo "$p-t$n: files missing"; exit 1; }
@@ -27,7 +29,7 @@ echo "$p-t$n: base_demo=$base_rc bad: suite=$bad_suite demo=$bad_rc ($sumline) o
 if [ $okb -eq 1 ]; then
   mkdir -p $out
   cp $src/bad_$n.diff $out/patch.diff; cp $src/demo_$n.py $out/demo.py; cp $src/notes_$n.md $out/notes.md 2>/dev/null
-  python3 - "$p" "$outn" "$sumline" "$n" "$oko" <<'PY'
+  python3 - "$p" "$outn" "$sumline" "$tn" "$oko" <<'PY'
 import json,sys,os
 p,outn,sumline,n,oko=sys.argv[1:6]
 out='/verif/seeded/%s-%s'%(p,outn)
@@ -40,4 +42,4 @@ meta={"property":p,"source":"independent sub-agent (twin round: a breaking chang
 json.dump(meta,open(out+'/meta.json','w'),indent=1)
 PY
 fi
-if [ $oko -eq 1 ]; then cp $src/ok_$n.diff /verif/refactors/T-$p-$n.diff; fi
+if [ $oko -eq 1 ]; then cp $src/ok_$n.diff /verif/refactors/T-$p-$tn.diff; fi
